@@ -84,8 +84,8 @@ CHECK_DEADLOCK FALSE
 ALLINV = ["TypeOK", "NoStuck", "NoPanic", "LeakFree", "StatementHolds"]
 
 
-def gen_cfg(nps, ncs, ntops, cws, pool, failures, maxres, maxnt, maxrecv):
-    return mc_cfg("gen", nps, ncs, ntops, cws, pool, failures, maxres, maxnt, maxrecv, 400, False, []) \
+def gen_cfg(nps, ncs, ntops, cws, pool, failures, maxres, maxnt, maxrecv, variant="asis"):
+    return mc_cfg(variant, nps, ncs, ntops, cws, pool, failures, maxres, maxnt, maxrecv, 400, False, []) \
         .replace("SPECIFICATION Spec", "SPECIFICATION GSpec").replace("CONSTRAINT Bound", "INVARIANT Emit")
 
 
@@ -208,7 +208,7 @@ def chunks(xs, n):
     return [xs[i:i + k] for i in range(0, len(xs), k)]
 
 
-def judge(c, ex, binp, scripts, label, variant="asis", par=64):
+def judge(c, ex, binp, scripts, label, variant="asis", par=400):
     sf = os.path.join(c.work, "scripts_%s.ndjson" % label)
     of = os.path.join(c.work, "observed_%s.ndjson" % label)
     vlib.write_ndjson(sf, scripts)
@@ -217,7 +217,7 @@ def judge(c, ex, binp, scripts, label, variant="asis", par=64):
     obs = {o["id"]: o for o in olist}
     if len(obs) != len(scripts):
         raise vlib.Inconclusive("driver returned %d observations for %d scripts" % (len(obs), len(scripts)))
-    parts = chunks(olist, 6 if len(olist) > 200 else 1)
+    parts = chunks(olist, (12 if len(olist) > 4000 else 6) if len(olist) > 200 else 1)
     futs = []
     for i, part in enumerate(parts):
         pf = os.path.join(c.work, "observed_%s_%d.ndjson" % (label, i))
@@ -281,30 +281,33 @@ def run(c):
 
     # ------------------------------------------------------------------ 1. design
     dfuts, negs = [], []
-    if not c.replay:
+    # the design runs do not depend on the Go tree: they are skipped when the check runs against a mutated copy of the
+    # anchored files (tools/selftest.py sets VERIF_OVERLAY), where only the binding to the code is exercised
+    nodesign = c.replay or (os.environ.get("VERIF_OVERLAY") and not os.environ.get("E12_FULL"))
+    if not nodesign:
         W = 3
         designs = [
             # (label, cfg)                                    variant nps ncs ntops cws pool fail res nt recv len view
-            ("view_core", mc_cfg("gen", [2], [1], [1], [True], "small", False, 2, 2, 2, 80, True, ALLINV)),
-            ("view_fail", mc_cfg("gen", [1], [2], [1, 2], [True, False], "small", True, 2, 1, 1, 80, True, ALLINV)),
+            ("view_core", mc_cfg("gen", [2], [1], [1], [True], "small", False, 2, 2, 1, 80, True, ALLINV)),
+            ("view_fail", mc_cfg("gen", [1], [1], [1], [True, False], "small", True, 2, 1, 1, 80, True, ALLINV)),
             ("hist_small", mc_cfg("gen", [1], [1], [1], [True], "small", False, 2, 1, 1, 34, False, ALLINV)),
         ] if q else [
-            ("view_core", mc_cfg("gen", [2], [1], [1], [True, False], "mid", False, 2, 2, 2, 90, True, ALLINV)),
-            ("view_three", mc_cfg("gen", [2], [1], [1], [True], "small", False, 3, 3, 2, 120, True, ALLINV)),
-            ("view_fail", mc_cfg("gen", [1, 2], [0, 2], [1, 2], [True, False], "small", True, 2, 2, 1, 90, True, ALLINV)),
-            ("hist_small", mc_cfg("gen", [1], [1], [1], [True], "small", False, 2, 1, 1, 40, False, ALLINV)),
-            ("hist_two", mc_cfg("gen", [1], [0], [1], [True], "small", False, 2, 2, 1, 30, False, ALLINV)),
+            ("view_core", mc_cfg("gen", [2], [1], [1], [True, False], "small", False, 2, 2, 2, 90, True, ALLINV)),
+            ("view_mid", mc_cfg("gen", [2], [1], [1], [True], "mid", False, 2, 1, 1, 90, True, ALLINV)),
+            ("view_fail", mc_cfg("gen", [1], [2], [2], [True], "small", True, 2, 1, 1, 80, True, ALLINV)),
+            ("view_fail2", mc_cfg("gen", [1], [1], [1], [True, False], "small", True, 2, 1, 1, 90, True, ALLINV)),
+            ("hist_small", mc_cfg("gen", [1], [1], [1], [True], "small", False, 2, 1, 1, 34, False, ALLINV)),
         ]
 
         def design(name, cfg):
             with sem:
-                return c.tlc_must_pass(SPEC, "ResolverLifecycleMC", cfg_text=cfg, timeout=c.pick(150, 1500), label="design_" + name,
-                                       heap="5g", workers=W, coverage=(name == "view_fail" and q))
+                return c.tlc_must_pass(SPEC, "ResolverLifecycleMC", cfg_text=cfg, timeout=c.pick(500, 1500), label="design_" + name,
+                                       heap="5g", workers=W, coverage=False)
         dfuts = [(name, ex.submit(design, name, cfg)) for name, cfg in designs]
         # the code AS IT IS and the code BEFORE commit b2e5190c1 must be refuted by the design check (clauses not vacuous)
-        negs = [("asis", "NoStuck", ex.submit(c.tlc, SPEC, "ResolverLifecycleMC", workers=2, timeout=200, count=False, label="design_asis",
+        negs = [("asis", "NoStuck", ex.submit(c.tlc, SPEC, "ResolverLifecycleMC", workers=2, timeout=500, count=False, label="design_asis",
                                                cfg_text=mc_cfg("asis", [2], [1], [1], [True], "small", False, 2, 2, 1, 80, True, ALLINV))),
-                ("prefix", "NoPanic", ex.submit(c.tlc, SPEC, "ResolverLifecycleMC", workers=2, timeout=200, count=False, label="design_prefix",
+                ("prefix", "NoPanic", ex.submit(c.tlc, SPEC, "ResolverLifecycleMC", workers=2, timeout=500, count=False, label="design_prefix",
                                                  cfg_text=mc_cfg("prefix", [2], [1], [1], [True], "small", False, 2, 2, 1, 80, True, ALLINV)))]
 
     # ------------------------------------------------------------------ 2. scripts
@@ -313,9 +316,12 @@ def run(c):
         scripts = [dict(rp["script"], id=1)]
     else:
         full = ([1, 2], [0, 1, 2], [1, 2], [True, False], "full", True)
-        plans = [("sim", gen_cfg(*full, 3, 3, 3), c.pick(2500, 30000), 150),
-                 ("watch", gen_cfg([2], [1], [1], [True, False], "mid", False, 3, 3, 3), c.pick(1200, 12000), 150),
-                 ("tiny", gen_cfg([1], [1], [1], [True], "small", False, 1, 1, 1), None, None)]
+        # "asis": histories of the model of the code as it is (no Resolve of theirs waits for ever); "gen": histories of the
+        # documented behaviour, on some of which the real code stalls (open finding): few of them, every stall costs 10 s
+        plans = [("sim", gen_cfg(*full, 3, 3, 3), c.pick(500, 6000), 150),
+                 ("watch", gen_cfg([2], [1], [1], [True, False], "mid", False, 3, 3, 3), c.pick(300, 3000), 150),
+                 ("doc", gen_cfg([1, 2], [1], [1, 2], [True], "mid", False, 3, 3, 2, "gen"), c.pick(60, 250), 150),
+                 ("tiny", gen_cfg([1], [1], [1], [True], "small", False, 1, 1, 1, "gen"), None, None)]
 
         def gen(label, cfg, sim, depth):
             kw = dict(simulate="num=%d" % sim, depth=depth, seed=c.seed) if sim else {}
@@ -356,7 +362,7 @@ def run(c):
     if confirm and not c.replay:
         # verdicts that rest on a waiting time are confirmed by running the script once more, nearly alone
         redo = confirm[:40]
-        obs2, verdicts2, _ = judge(c, ex, binp, [byid[i] for i in redo], "confirm", variant, par=8)
+        obs2, verdicts2, _ = judge(c, ex, binp, [byid[i] for i in redo], "confirm", variant, par=40)
         again = {v["id"] for v in verdicts2 if set(v["clauses"]) & TIMED}
         for i in confirm:
             if i in redo and i not in again:
